@@ -6,6 +6,8 @@ attribute, so in-step calls are seen too).  The workload hands the driver commit
 the variation takes prescribed values, or registers a prescribed-variation scheme in the
 public `schemes` table for values no finite committee can realise; the oracle computes
 the expected variation itself and judges the resulting delta.
+Each live driver is re-tuned (range, reference variance re-assigned) and judged again,
+and a step with a zero-variance committee must leave delta at max_delta.
 """
 from __future__ import annotations
 
